@@ -434,7 +434,7 @@ func main() {
 	if s := transIntFunc("mg", "changeExit", "changeExit"); s != "" {
 		lt.f("/-- literal translation of mg/deps.go:changeExit -/\n%s\n", s)
 	} else {
-		lt.f("-- changeExit: shape not translatable\ndef changeExit (old' new' : Int) : Int := -1\n\n")
+		lt.f("-- changeExit: shape not translatable\ndef changeExit (old' : Int) (new' : Int) : Int := -1\n\n")
 	}
 	lt.f("end MageModel.Generated.Lits\n")
 	writeIfChanged(filepath.Join(*outDir, "Lits.lean"), lt.b.String())
